@@ -11,7 +11,29 @@ MARK = '<!-- AS-BUILT: everything below is assembled by harness/mkdesign.py from
 out = [MARK, '', '## 10. As built', '',
        'Sections 0–9 above are the design as written before any code existed; this part records what was actually built, '
        'per property, by the builders (one sub-agent per property, coordinated centrally). Where the two differ, this part '
-       'is right. `harness/BUILDERS.md` is the common contract every property module follows.', '']
+       'is right. `harness/BUILDERS.md` is the common contract every property module follows.', '',
+       '### 10.00 Pipeline as built (differences from section 2)', '',
+       '* One entry point `harness/check.py` (`--setup`, `--property Cxx [--tier]`, `--replay file`); it re-executes itself with '
+       '`PYTHONHASHSEED=0`, `CFLIB_VERIF=1` and `PYTHONPATH=$VERIF_REPO` (default `/repo`), so a check can be pointed at a scratch '
+       'worktree (`VERIF_REPO=/tmp/wt ./harness/check.py …`) — this is how seeded changes and mutations are run without touching `/repo`.',
+       '* Steps of a check (`core/runner.py`): translator `generate()` where the property has one (fail-closed) → proof step → tie → oracle '
+       '→ verdict → evidence. The proof step (`core/coqrun.py`) builds the dependency closure of each of the property\'s `Property.v` files '
+       'with plain `coqc` (no shared Makefile at check time; a file is rebuilt when it or a dependency is newer), runs the forbidden-construct '
+       'gate over every file in that closure, recompiles the property file and parses the answer of every `Print Assumptions` against the '
+       'property\'s allow-list. `--setup` pre-builds everything with `coq_makefile` + `make -k`.',
+       '* Model evaluation: generated `coq/Tmp/cases_*.v` files with `Eval vm_compute`, sharded over parallel `coqc`; because Coq prints '
+       '≈ 1 ms per numeral, large outputs are compared by a polynomial digest computed inside Coq (`Common/Digest.v` or a cheaper local '
+       'one) and only differing blocks are re-evaluated and printed in full. No OCaml extraction is used anywhere (so there are no '
+       '`Extract Constant`/`Extract Inductive` directives in the trusted base).',
+       '* Verdict: oracle failures (property text on the real code, concrete input) are matched by their `class` against '
+       '`known_findings.json` (`status: known` ⇒ `KNOWN-FINDING` line); any other failure ⇒ `VIOLATION … replay=…`; a broken proof, translator '
+       'or model/implementation disagreement with no oracle failure ⇒ `VIOLATION … no-failing-input-found`, the replay naming the theorem or '
+       'correspondence. When something is broken the oracle is run in its deeper search mode first.',
+       '* No source hooks were needed: `MANIFEST.hooks.source_commits` is empty. All `/repo` commits are `fix:` commits (section 11).',
+       '* Work split: the coordinator built the pipeline, Common, C02 and C13; every other property was built by a dedicated sub-agent '
+       'following `harness/BUILDERS.md`, then deepened in further rounds driven by what the independently seeded changes (section 12) and the '
+       'builders\' own "not covered" lists showed. Per-property fragments (`manifest.d/`, `findings/`, `design.d/`) are assembled by '
+       '`harness/assemble.py` and `harness/mkdesign.py`.', '']
 
 # ---- overview table
 out += ['### 10.0 Overview', '',
